@@ -240,6 +240,10 @@ def parse_into_datetime(
     if isinstance(value, dt.date):
         if hasattr(value, 'hour'):
             ts = value
+            if ts.tzinfo is None or ts.tzinfo.utcoffset(ts) is None:
+                # timezone-naive: assume UTC, as format_datetime() does, so
+                # that the value compares with timezone-aware timestamps
+                ts = pytz.utc.localize(ts.replace(tzinfo=None))
         else:
             # Add a time component
             ts = dt.datetime.combine(value, dt.time(0, 0, tzinfo=pytz.utc))
